@@ -11,3 +11,6 @@ func vnew(ch *channel, id bin.Bin128) {}
 func vtrc(event string, ch *channel) {}
 
 func (c *client) vstate(event string) {}
+
+func vpoolGet(s *channelState) {}
+func vpoolPut(s *channelState) {}
